@@ -117,6 +117,16 @@ pub fn guard<T>(f: impl FnOnce() -> T) -> Result<T, PanicInfo> {
     }
 }
 
+/// Safety net around one whole case: a library panic that escapes the check's own guarded calls
+/// (a comparison, a getter, `Display`, a hash ...) becomes a failure of that case instead of
+/// ending the process (which the driver could only report as inconclusive).
+pub fn netted(st: &mut Stats, case: impl FnOnce() -> Value, size: usize, body: impl FnOnce(&mut Stats)) {
+    let r = guard(|| body(&mut *st));
+    if let Err(p) = r {
+        st.fail(format!("uncaught-{}", panic_sig(&p)), case(), size, format!("the library panicked in a call the check makes outside its guarded entry points: {p:?}"));
+    }
+}
+
 pub fn panic_sig(p: &PanicInfo) -> String {
     // file path relative to the repository, message prefix; no line number (robust to edits)
     let f = p.file.trim_start_matches("/repo/");
